@@ -34,7 +34,9 @@ Inductive cop :=
 Record obs := {
   o_ok : option bool;                       (* nil error?  None = not observed *)
   o_reads : list (uid * option nat);        (* Read id: None = error, Some k = k-th plan of the table *)
-  o_counts : list (uid * list nat) }.       (* plan id -> rows in [plans; blocks; checks; sequences; actions] *)
+  o_counts : list (uid * list nat);         (* plan id -> rows in [plans; blocks; checks; sequences; actions] *)
+  o_exists : list (uid * bool);             (* Exists id *)
+  o_search : list (uid * bool) }.           (* cosmosdb: the search partition has an entry for id *)
 
 Record case := {
   k_backend : nat;                          (* 0 = sqlite, 1 = cosmosdb *)
@@ -50,7 +52,9 @@ Record vault := {
   v_init : v_st;
   v_step : xop -> v_st -> v_st * bool;
   v_read : uid -> v_st -> option spln;
-  v_count : kind -> uid -> v_st -> nat }.
+  v_count : kind -> uid -> v_st -> nat;
+  v_exists : uid -> v_st -> bool;
+  v_search : uid -> v_st -> bool }.
 
 Definition sqlite_vault : vault :=
   {| v_st := db; v_init := [];
@@ -60,7 +64,9 @@ Definition sqlite_vault : vault :=
                         | XDeleteStage _ id => SqliteModel.delete dec_req0 dec_att0 id
                         end;
      v_read := SqliteModel.read dec_req0 dec_att0;
-     v_count := count_rows |}.
+     v_count := count_rows;
+     v_exists := SqliteModel.exists_plan;
+     v_search := fun _ _ => false |}.
 
 Definition cosmos_vault : vault :=
   {| v_st := cdb; v_init := ([], []);
@@ -70,7 +76,9 @@ Definition cosmos_vault : vault :=
                         | XDeleteStage n id => CosmosModel.delete_stage dec_req0 dec_att0 n id
                         end;
      v_read := CosmosModel.read dec_req0 dec_att0;
-     v_count := fun k pid c => count_rows k pid (fst c) |}.
+     v_count := fun k pid c => count_rows k pid (fst c);
+     v_exists := fun id c => CosmosModel.exists_plan id (fst c);
+     v_search := fun id c => memb id (snd c) |}.
 
 Definition to_op (c : cop) : option xop :=
   match c with
@@ -151,9 +159,23 @@ Fixpoint check_counts (v : vault) (d : v_st v) (j : nat) (l : list (uid * list n
     else [31; j]
   end.
 
+Fixpoint check_flags (code : nat) (f : uid -> bool) (j : nat) (l : list (uid * bool)) : list nat :=
+  match l with
+  | [] => []
+  | (id, b) :: r => if Bool.eqb (f id) b then check_flags code f (S j) r else [code; j]
+  end.
+
 Definition check_obs (v : vault) (tbl : list plan) (d : v_st v) (ob : obs) : list nat :=
   match check_reads v tbl d 0 (o_reads ob) with
-  | [] => check_counts v d 0 (o_counts ob)
+  | [] =>
+    match check_counts v d 0 (o_counts ob) with
+    | [] =>
+      match check_flags 32 (fun id => v_exists v id d) 0 (o_exists ob) with
+      | [] => check_flags 33 (fun id => v_search v id d) 0 (o_search ob)
+      | bad => bad
+      end
+    | bad => bad
+    end
   | bad => bad
   end.
 
